@@ -1066,3 +1066,31 @@ def programs(draw, size=12, max_depth=2, roots=("module", "dfg", "function", "cf
     ok = g.run(root)
     # plain JSON tree (no shared sub-objects), so that cases can be edited and replayed faithfully
     return json.loads(json.dumps({"root": root, "events": g.events, "classes": sorted(g.classes), "complete": ok}))
+
+
+def consistent(prog) -> bool:
+    """Structural self-consistency of a program (used to reject candidates produced by the
+    shrinker): every call / load_func event repeats the signature of the function event it names."""
+    evs = prog.get("events", [])
+    for ev in evs:
+        if not isinstance(ev, dict) or "e" not in ev:
+            return False
+        if ev["e"] in ("call", "load_func"):
+            f = ev.get("f")
+            if not isinstance(f, int) or not (0 <= f < len(evs)):
+                return False
+            fe = evs[f]
+            sig = ev.get("sig") or {}
+            if fe.get("e") == "decl":
+                if (fe.get("params"), fe.get("i"), fe.get("o")) != (sig.get("params"), sig.get("i"), sig.get("o")):
+                    return False
+            elif fe.get("e") == "func":
+                if (fe.get("params"), fe.get("ins")) != (sig.get("params"), sig.get("i")):
+                    return False
+                if fe.get("outs") is not None and fe.get("outs") != sig.get("o"):
+                    return False
+            else:
+                return False
+            if sig.get("params") and (not isinstance(ev.get("targs"), list) or len(ev["targs"]) != len(sig["params"])):
+                return False
+    return True
